@@ -12,6 +12,7 @@
 -/
 import MdwModel.Theorems.CtxLayout
 import MdwModel.Theorems.Plan
+import MdwModel.Theorems.RefineLoop
 namespace Mdw
 
 structure PtraceOk (r : UserRegs) (f : FpState) (d : List Nat) : Prop where
@@ -119,5 +120,25 @@ theorem C04_omitted_reported (ts : List TTask) (t : TTask) (ht : t ∈ ts) :
 example : PtraceOk ⟨1,2,3,4,5,6,7,8,9,10,11,12,13,14,15,0,16,0x33,0x246,17,0x2b,0,0,0,0,0,0⟩
     ⟨0x37f, 0, 0, 0, 0, 0, 0x1f80, 0xffff, [], []⟩ [] := by
   constructor <;> first | decide | (intro i; simp)
+
+
+-- the thread list in the image ----------------------------------------------------------------------------------------
+
+/-- **C04 (the writer refines the image model).** `thread_list_stream::write`, as the builder operations it performs
+    (count, reserved record array, then per thread: stack bytes, instruction-pointer window, context, and the record
+    written into slot `idx`), appends exactly the thread-list stage of the image model, for every thread list: one
+    record per thread, in order, no index shift -/
+theorem C04_refine_thread_list (b : Buf) (ts : List DThread)
+    (hb : b.len + 4 + 48 * ts.length + (threadBlobs ts).length < 2 ^ 32) :
+    opThreadList b ts = some (⟨b.inner ++ threadListBody b.len ts⟩, ⟨ST_THREAD_LIST, 4 + 48 * ts.length, b.len⟩) :=
+  Refine_thread_list b ts hb
+
+/-- **C04 (image: one record per thread, each with its own context).** thread `k`'s record is in slot `k` of the
+    thread list of the image and points at that thread's own context bytes -/
+theorem C04_image_thread (d : DumpIn) (k : Nat) (t : DThread) (hk : d.threads[k]? = some t) :
+    At (dumpBytes d) (32 + 12 * d.numWriters + 4 + 48 * k) (threadRec (threadPos d k) t) ∧
+    At (dumpBytes d) (t.ctxRva (threadPos d k)) t.ctx := by
+  have := Image_thread d k t hk
+  exact ⟨this.1, this.2.2.2⟩
 
 end Mdw
